@@ -41,7 +41,7 @@ def make_cases(rng, tier, n):
                  cache=rng.choice(["rel", "shm"]), env=dict(DUD_VERIF_SHARED=str(shared), DUD_VERIF_DEDICATED=str(ded), GOMAXPROCS=str(procs),
                                                             GORACE="halt_on_error=0"), timeout=90)
         files = [e for e in c["init"] if e[0] == "file"]
-        fail = rng.choice(["none", "none", "fifo", "missing_obj", "blocked"])
+        fail = rng.choice(["none", "none", "fifo", "missing_obj", "blocked", "bad_manifest"])
         strat = rng.choice("lc")
         ops = []
         if fail == "fifo" and files:
@@ -54,7 +54,11 @@ def make_cases(rng, tier, n):
             for f in rng.sample(files, min(len(files), rng.choice([1, 3, 5]))):
                 ops.append(("write", f[1], "g:%d:%d" % (rng.randrange(7000, 9000), rng.choice([70001, 270000]))))
             ops.append(("status", []))
-        if fail == "missing_obj":
+        if fail == "bad_manifest":
+            # a manifest somewhere in the tree is unreadable: status / checkout of the tree fail at that entry while its
+            # siblings are still being worked on — they must come back with the error
+            ops += [("corrupt", "m%d" % rng.randrange(1000), "g:5:33"), ("status", []), ("clone", []), ("checkout", rng.choice("lc"), False, [])]
+        elif fail == "missing_obj":
             ops += [("rmobj", rng.randrange(1000)), ("status", []), ("clone", []), ("checkout", rng.choice("lc"), False, [])]
         elif fail == "blocked" and files:
             ops += [("clone", []), ("write", rng.choice(files)[1], "g:999:3"), ("checkout", rng.choice("lc"), False, [])]
